@@ -482,6 +482,10 @@ def correspond(cases, hp, mp, detail=False, fuel=0, loader="run_checks"):
             # function applied to the RESULT of another function (or a regex matched against one) asks about a
             # string that only exists at run time, which the tables cannot contain
             res["verdict"] = "skipped-envmiss"
+        if by[i].get("wf") is False:
+            # the parser produced a rules file outside `RulesFile.wf` (Guard/Model/WF.lean): the hypothesis of the
+            # never-panics theorem (C08Eval) is not met by parser output - a broken tie, whatever the observations are
+            res["verdict"] = "disagree-wf"
         out.append(res)
     return out
 
